@@ -276,6 +276,9 @@ def run_shard(prop, tier, seed, shard, nshards, out, replay=None):
             truncated += 1
             continue
         ctx.begin(case)
+        # the library's randomised sub-routines (Lanczos / SLQ probe vectors, random features) draw from torch's global
+        # stream: pin it per case so that a replay re-executes the same execution
+        torch.manual_seed(int(case_hash(case), 16) % (2**31))
         try:
             mod.run_case(case, ctx)
         except Reject as e:
